@@ -149,6 +149,8 @@ def _sel(kind, n):
         return slice(None, None, -1)
     if kind == "mask":
         return np.array([j % 2 == 1 for j in range(n)], dtype=bool)
+    if kind == "lmask":
+        return [j % 2 == 1 for j in range(n)]
     if kind == "list":
         return [-1, 0, 0] if n else []
     if kind == "empty":
